@@ -909,3 +909,23 @@ fire('C18', 'fleet-get-does-not-republish', 'C18.R7', 'Fleet.get',
      lambda p: M.delete_stmt(p, E_FLT, 'Fleet.get', M.stmt_calling('self._fleet_stats_collector')))
 fire('C10', 'machine-cancel-result-check-inverted', 'C10.R2', 'cancel-loop',
      lambda p: M.replace_node(p, N_MAC, 'Machine.behaviour', lambda n: isinstance(n, ast.UnaryOp) and ast.unparse(n) == 'not event_cancelled', 'event_cancelled'))
+
+# ---- round-3 seeds: validations judged by abstract evaluation over representative configurations (C20.R4)
+fire('C20', 'source-zero-interarrival-int-only', 'C20.R4', 'nonblocking-zero-interarrival',
+     lambda p: M.replace_node(p, N_SRC, 'Source.__init__', M.if_testing('inter_arrival_time == 0'),
+                              sub('inter_arrival_time == 0 and', 'isinstance(inter_arrival_time, int) and inter_arrival_time == 0 and')))
+silent('C20', 'source-zero-interarrival-respelled',
+       lambda p: M.replace_node(p, N_SRC, 'Source.__init__', M.if_testing('inter_arrival_time == 0'),
+                                sub('inter_arrival_time == 0 and not self.blocking', '(not blocking) and isinstance(inter_arrival_time, (int, float)) and inter_arrival_time <= 0')))
+fire('C20', 'buffer-mode-case-insensitive-accept', 'C20.R4', 'validates:mode',
+     lambda p: M.replace_node(p, E_BUF, 'Buffer.__init__', M.if_testing('self.mode not in'), sub('self.mode not in', 'self.mode.upper() not in')))
+silent('C20', 'buffer-mode-respelled',
+       lambda p: M.replace_node(p, E_BUF, 'Buffer.__init__', M.if_testing('self.mode not in'), sub('self.mode not in ["FIFO", "LIFO"]', 'not (mode == "FIFO" or mode == "LIFO")')))
+fire('C20', 'edge-delay-strictly-negative-only-below-minus-one', 'C20.R4', 'delay>=0',
+     lambda p: M.replace_node(p, 'edges/edge.py', 'Edge.get_delay', lambda n: isinstance(n, ast.Assert), sub('val >= 0', 'val > -1')))
+silent('C20', 'edge-delay-check-as-raise',
+       lambda p: M.replace_node(p, 'edges/edge.py', 'Edge.get_delay', lambda n: isinstance(n, ast.Assert),
+                                lambda s: 'if 0 > val:\n    raise ValueError("Delay must be non-negative")'))
+silent('C20', 'sink-edge-asserts-respelled',
+       lambda p: M.replace_node(p, N_SNK, 'Sink.behaviour', lambda n: isinstance(n, ast.Assert) and 'in_edges' in ast.unparse(n.test),
+                                lambda s: 'if not self.in_edges:\n    raise ValueError("sink needs an in_edge")'))
